@@ -66,7 +66,7 @@ func init() {
 		}
 		spec := &mc.Spec{
 			Level: "exploration",
-			Rule: "raw layer: every sequence of ≤ seqLen messages over payload size × descriptor count × credentials × receive buffer size on a real SOCK_SEQPACKET pair (all sends first, then all receives; thorough also alternating); framed layer (verif-exported constructor): command/reply types in first-use and repeat position, payloads around the 32 KiB frame, a send that is rejected before or inside sendmsg followed by a normal message. " +
+			Rule: "raw layer: every sequence of ≤ seqLen messages on a real SOCK_SEQPACKET pair, the first message over the full payload size × descriptor count × credentials × receive buffer size alphabet, later ones over a reduced alphabet that keeps every class (all sends first, then all receives; thorough also alternating); framed layer (verif-exported constructor): command/reply types in first-use and repeat position, payloads around the 32 KiB frame, a send that is rejected before or inside sendmsg followed by a normal message. " +
 				"Oracle: reference FIFO — every message either arrives whole, in order, with descriptors of identical (dev, ino) in order and close-on-exec set, and the sent credentials, or an error is reported on the sending or receiving side; the process's descriptor count returns to its value before the sequence once delivered descriptors are closed; a later message is unaffected by an earlier rejected one. " +
 				"non-trivial: the message carries descriptors or credentials or does not fit; distinct = (sequence, per-message outcome)",
 			Bound:       map[string]any{"sizes": sizes, "fds": nfds, "rbufs": rbufs, "seq_len": seqLen},
@@ -90,13 +90,19 @@ func init() {
 			var seq []c19msg
 			for i := 0; i < n; i++ {
 				m := c19msg{fill: byte('a' + i)}
-				if i == 0 || tier == "thorough" {
+				if i == 0 {
 					m.size = sizes[x.Choose(len(sizes), "size")]
 					m.nfds = nfds[x.Choose(len(nfds), "fds")]
 					m.cred = x.Choose(3, "cred")
 					m.rbuf = rbufs[x.Choose(len(rbufs), "rbuf")]
+				} else if i == 1 && tier == "thorough" {
+					// thorough: the second message still spans every class (empty, small, over a page, over the frame; no / some / too many descriptors)
+					m.size = []int{0, 1, 4097, 32<<10 + 1}[x.Choose(4, "size")]
+					m.nfds = []int{0, 2, 254}[x.Choose(3, "fds")]
+					m.cred = x.Choose(3, "cred")
+					m.rbuf = []int{64, 64 << 10}[x.Choose(2, "rbuf")]
 				} else {
-					// quick: later messages are drawn from a reduced alphabet
+					// later messages are drawn from a reduced alphabet
 					m.size = []int{1, 4097}[x.Choose(2, "size")]
 					m.nfds = []int{0, 2}[x.Choose(2, "fds")]
 					m.cred = x.Choose(2, "cred")
